@@ -21,6 +21,7 @@ const (
 
 var nextKid int
 
+//go:norace
 func newKid() int {
 	nextKid++
 	return nextKid
@@ -64,6 +65,8 @@ func newSinkFile(p *Proc, name string) *File {
 }
 
 // NewPipe is os.Pipe for process p (nil: kernel-owned).
+//
+//go:norace
 func (w *World) NewPipe(p *Proc, name string, capacity int) (r, wr *File) {
 	sh := &pipeShared{buf: newPipeBuf(name, capacity), writers: 1, readers: 1}
 	w.mu.Lock()
@@ -78,6 +81,8 @@ func (w *World) NewPipe(p *Proc, name string, capacity int) (r, wr *File) {
 }
 
 // dupFor gives process p its own reference to the same open file.
+//
+//go:norace
 func (f *File) dupFor(p *Proc) *File {
 	W.mu.Lock()
 	id := newKid()
